@@ -86,7 +86,15 @@ func recvPredicateCall(call *ssa.Call) (ssa.Value, bool) {
 				}
 			}
 		})
-		if len(fields) != 1 {
+		// one channel field (possibly probed more than once: non-blocking first, then blocking)
+		for _, f := range fields[1:] {
+			a, _, _ := loadedField(fields[0])
+			b, _, _ := loadedField(f)
+			if a != b {
+				return nil, false
+			}
+		}
+		if len(fields) == 0 {
 			return nil, false
 		}
 		want, _, _ := loadedField(fields[0])
